@@ -451,6 +451,31 @@ def C15(c):
              "streams) through model and weight-profile specs")
 
 
+def C07(c):
+    c.proofs()
+    exe = need_harness(c)
+    if exe:
+        r = run_suite(exe, "long", c.seed, c.tier, "C07-long")
+        c.add_suite(r, sig_method)
+        st = r.get("stats", {})
+        c.coverage["late_positions"] = st.get("late_positions", 0)
+        c.coverage["long_steps_total"] = st.get("long_steps", 0)
+        c.coverage["lstep_checks"] = r.get("summary", {}).get("lsteps", 0)
+    return c.finish(
+        level="proof",
+        trusted=TRUSTED_COMMON + NUMERIC_TRUST + [
+            "locality / forgetting theorems reduce every history length to a bounded suffix for the specs; that the floating-point "
+            "accumulators stay within the allowance a = 1024*eps*(t+n)*scale at late positions is measured on the generated streams "
+            "(quick: 12 000 steps per instance, thorough: 2 000 000), not proved; the double-accumulator averages (WMA, LinReg, SWMA) "
+            "grow like t^1.4 and would cross the linear bound somewhere beyond 1e7-1e8 steps (DESIGN §3.2)",
+        ],
+        rule="34 method types x lengths {2,5,14,100} (thorough {1,2,3,5,14,50,127,254}): one instance runs 12 000 (2 000 000) steps "
+             "through volatile / exactly flat / volatile / 1e6 / 1e-3 / plateau regimes; at ~75 late positions (around 255, 256, 510, "
+             "512, 65535, 65536, the middle, the end, random) the output is compared with a fresh exact model primed with the last "
+             "window (selections, indices, signals exactly; arithmetic within the allowance at k=t+n); recursive methods: one exact "
+             "model step from the serialized state at each of those positions")
+
+
 def replay(prop, path):
     """re-run a replay file: real code through the harness, then the driver"""
     text = open(path).read()
@@ -488,4 +513,4 @@ def replay(prop, path):
     return 1 if res["mismatches"] or res.get("error") else 0
 
 
-PROPS = {"C01": C01, "C02": C02, "C03": C03, "C04": C04, "C14": C14, "C16": C16, "C18": C18, "C17": C17, "C09": C09, "C08": C08, "C10": C10, "C11": C11, "C13": C13, "C19": C19, "C20": C20, "C15": C15}
+PROPS = {"C01": C01, "C02": C02, "C03": C03, "C04": C04, "C14": C14, "C16": C16, "C18": C18, "C17": C17, "C09": C09, "C08": C08, "C10": C10, "C11": C11, "C13": C13, "C19": C19, "C20": C20, "C15": C15, "C07": C07}
